@@ -158,7 +158,7 @@ pub fn c20_columns_forms_a2() {
     sym::forget((a, b));
 }
 
-// @h prop=C20 tier=quick kind=proof inst="ColumnsRegion<MirrorRegion<u8>>: &Vec<u8>, PushIter, ReadColumns (region-backed)" bounds="3 steps, one form each, rows of 2 symbolic cells" desc="mixed-form history == canonical-form history"
+// @h memw=13 prop=C20 tier=quick kind=proof inst="ColumnsRegion<MirrorRegion<u8>>: &Vec<u8>, PushIter, ReadColumns (region-backed)" bounds="3 steps, one form each, rows of 2 symbolic cells" desc="mixed-form history == canonical-form history"
 #[cfg_attr(kani, kani::proof, kani::unwind(12))]
 pub fn c20_columns_forms_b() {
     let mut a = CR::default();
@@ -234,7 +234,7 @@ pub fn c20_slice_empty_owned_forms() {
     sym::forget(a);
 }
 
-// @h prop=C20 tier=quick kind=proof inst="ConsecutiveIndexPairs<SliceRegion<MirrorRegion<u8>>>: empty and non-empty read items from another region" bounds="items of 2, 0, 2 symbolic bytes pushed as region-backed read items of a second region" desc="read items (incl. the empty one) as input form under dense indexing: indices 0,1,2, reads equal, no panic (the dense-pairs debug assertion holds)"
+// @h memw=8 prop=C20 tier=quick kind=proof inst="ConsecutiveIndexPairs<SliceRegion<MirrorRegion<u8>>>: empty and non-empty read items from another region" bounds="items of 2, 0, 2 symbolic bytes pushed as region-backed read items of a second region" desc="read items (incl. the empty one) as input form under dense indexing: indices 0,1,2, reads equal, no panic (the dense-pairs debug assertion holds)"
 #[cfg_attr(kani, kani::proof, kani::unwind(12))]
 pub fn c20_cip_slice_read_items() {
     type W = ConsecutiveIndexPairs<SR>;
@@ -253,7 +253,7 @@ pub fn c20_cip_slice_read_items() {
     sym::forget((a, src));
 }
 
-// @h prop=C20 tier=quick kind=proof inst="ColumnsRegion<MirrorRegion<u8>>: a NARROWER row pushed as ReadColumns (region-backed) after a wider row" bounds="target holds a 3-cell row; a 1-cell row is pushed as a read item of another region; symbolic cells" desc="the read-item form behaves like the slice form: the earlier, wider row keeps its length and cells, the new row gets the next dense index"
+// @h memw=5 prop=C20 tier=quick kind=proof inst="ColumnsRegion<MirrorRegion<u8>>: a NARROWER row pushed as ReadColumns (region-backed) after a wider row" bounds="target holds a 3-cell row; a 1-cell row is pushed as a read item of another region; symbolic cells" desc="the read-item form behaves like the slice form: the earlier, wider row keeps its length and cells, the new row gets the next dense index"
 #[cfg_attr(kani, kani::proof, kani::unwind(12))]
 pub fn c20_columns_narrower_read_item() {
     let w = sym::bytes::<3>();
